@@ -168,7 +168,7 @@ class Session:
         """op is a tuple like the driver's op tokens, with bytes (utf-8) for strings."""
         c = self.client
         name = op[0]
-        s = lambda b: b.decode("utf-8")
+        s = lambda b: b.decode("utf-8", "surrogateescape")   # bytes that are not UTF-8 become lone surrogates: a str that cannot be encoded
         try:
             if name == "connect":
                 _, login, pw, authz, tls, mech = op
